@@ -53,15 +53,20 @@ def used_params(expr: str, params: List[str]) -> List[str]:
 
 
 def render_batch(items: List[Dict[str, Any]]) -> str:
-    out = ["import icontract\n", exprs.SUPPORT, "\n"]
+    out = ["import icontract\nimport reprlib\n", exprs.SUPPORT, "\n",
+           # a representer with limits of its own for a quarter of the contracts (the values must be shown through it)
+           "TIGHT_REPR = reprlib.Repr()\nTIGHT_REPR.maxlist = 3\nTIGHT_REPR.maxtuple = 3\nTIGHT_REPR.maxdict = 2\nTIGHT_REPR.maxset = 2\n"
+           "TIGHT_REPR.maxstring = 12\nTIGHT_REPR.maxother = 40\nTIGHT_REPR.maxlong = 12\n\n"]
     for it in items:
         k = it["k"]
+        it["custom_repr"] = (sum(ord(ch) for ch in str(k)) % 4 == 1)
+        akw = ", a_repr=TIGHT_REPR" if it["custom_repr"] else ""
         # parameters of the condition which the function does not have keep their own default values
         lam_params = list(it["lam_params"]) + ["{}={!r}".format(n, v) for n, v in it.get("lam_defaults", {}).items()]
         deco = "require" if it["role"] == "pre" else "ensure"
         if it["role"] == "inv":
             out.append("def make_{k}(c1):\n".format(k=k))
-            out.append("    @icontract.invariant(lambda self: {e}, description={d!r})\n".format(e=it["expr"], d="D:" + str(k)))
+            out.append("    @icontract.invariant(lambda self: {e}, description={d!r}{a})\n".format(e=it["expr"], d="D:" + str(k), a=akw))
             out.append("    class Inv(Holder):\n        pass\n")
             out.append("    return Inv\n")
             out.append("F_{k} = make_{k}({c1})\n\n".format(k=k, c1=it["c1"]))
@@ -69,7 +74,8 @@ def render_batch(items: List[Dict[str, Any]]) -> str:
         out.append("def make_{k}(c1):\n".format(k=k))
         if it.get("snapshot_of"):
             out.append("    @icontract.snapshot(lambda {p}: {p}, name={n!r})\n".format(p=it["snapshot_of"], n="old_" + it["snapshot_of"]))
-        out.append("    @icontract.{deco}(lambda {ps}: {e}, description={d!r})\n".format(deco=deco, ps=", ".join(lam_params), e=it["expr"], d="D:" + str(k)))
+        out.append("    @icontract.{deco}(lambda {ps}: {e}, description={d!r}{a})\n".format(deco=deco, ps=", ".join(lam_params), e=it["expr"], d="D:" + str(k),
+                                                                                         a=akw))
         out.append("    def f({ps}):\n        return {ret}\n".format(ps=", ".join(it["params"] + it.get("extra_params", [])), ret=it.get("ret", "None")))
         out.append("    return f\n")
         out.append("F_{k} = make_{k}({c1})\n\n".format(k=k, c1=it["c1"]))
@@ -137,6 +143,14 @@ def judge(w, mod: Any, item: Dict[str, Any], twin: exprs.Twin, kwargs: Dict[str,
         return
     cap = CAPTURED[-1]
     a_repr = cap["a_repr"]
+    configured = getattr(mod, "TIGHT_REPR", None) if item.get("custom_repr") else icontract.aRepr
+    if configured is not None:
+        w.count("configured_repr_checks")
+        if a_repr is not configured:
+            w.violation("C06/values-not-shown-through-the-configured-a_repr", "the {} contract was {} but its values were represented with {}".format(
+                item["role"], "given a_repr=TIGHT_REPR" if item.get("custom_repr") else "left with the default a_repr",
+                "the default icontract.aRepr" if a_repr is icontract.aRepr else repr(a_repr)), case)
+        a_repr = configured
     parts = cap["parts"]
     msg = str(exc)
     w.count("messages_judged")
